@@ -39,6 +39,7 @@ fn main() {
     let mut log = String::from("/dev/stdout");
     let mut hist: Option<String> = None;
     let mut verbose = false;
+    let mut count_only = false;
     let mut budget = 30.0f64;
     let mut mem_gib = 4.0f64;
     let mut params: Vec<(String, String)> = Vec::new();
@@ -63,6 +64,7 @@ fn main() {
             "--log" => log = val(),
             "--hist" => hist = Some(val()),
             "--verbose" => verbose = true,
+            "--count-cases" => count_only = true,
             "--budget" => budget = val().parse().unwrap_or_else(|_| usage()),
             "--mem" => mem_gib = val().parse().unwrap_or_else(|_| usage()),
             "--param" => {
@@ -76,6 +78,13 @@ fn main() {
         i += 1;
     }
 
+    if count_only {
+        match props::case_count(&prop, tier) {
+            Some(n) => println!("COUNT {n}"),
+            None => println!("COUNT none"),
+        }
+        return;
+    }
     runner::install_panic_hook();
     if mem_gib > 0.0 {
         runner::set_memory_limit((mem_gib * 1024.0 * 1024.0 * 1024.0) as u64);
